@@ -325,6 +325,14 @@ impl Search {
             return 0; // Avoid threefold repetition at first repeitition
         }
 
+        #[cfg(rce_verif)]
+        if crate::verif_hooks::tt_off() {
+            TRANSPOSITION_TABLE
+                .write()
+                .expect("Transposition table is poisoned! Unable to write new entry.")
+                .clear();
+        }
+
         // Check if we have more information in the TTable than we have already reached in this search
         if let Some(entry) = TRANSPOSITION_TABLE
             .read()
